@@ -57,6 +57,17 @@ class C16(Prop):
                                                      {"phi": "3/4", "hs": ["0"], "zero_as": ["float", "fraction"][n % 2]}]}
         for n in range(1, 13 if q else 15):
             yield {"kind": "Qrow", "n": n}
+        # the connected-subgraph counter on substrates whose edge connectivity is below their minimum degree: two triangles /
+        # two 4-cliques joined by a bridge, two 4-cycles sharing a vertex
+        tri2 = [[0, 1], [1, 2], [0, 2], [2, 3], [3, 4], [4, 5], [3, 5]]
+        k4 = lambda o: [[o + a, o + b] for a in range(4) for b in range(a + 1, 4)]
+        k42 = k4(0) + k4(4) + [[3, 4]]
+        cyc2 = [[0, 1], [1, 2], [2, 3], [3, 0], [0, 4], [4, 5], [5, 6], [6, 0]]
+        for edges, nn, ks in ((tri2, 6, (0, 1, 2, 3)), (k42, 8, (1, 2)), (cyc2, 7, (1, 2))):
+            for focal in (0, nn - 3):
+                for k in ks:
+                    yield {"kind": "nocg", "nodes": list(range(nn)), "edges": edges, "ak": [v for v in range(nn) if v != focal],
+                           "i": focal, "k": k}
         for n in range(1, 6 if q else 7):
             yield {"kind": "QQ", "n": n}
 
@@ -67,6 +78,14 @@ class C16(Prop):
             return {"kind": "clique", "tau": tau, "hs": [rng.randrange(pool) for _ in range(tau - 1)]}
         n = rng.randint(2, 6)
         nodes, edges = mp.random_connected_graph(rng, n, rng.choice([0.2, 0.5, 0.8]))
+        if rng.random() < 0.2:
+            # substrates whose edge connectivity is below their minimum degree (dense parts joined by a bridge or a cut vertex)
+            nodes, edges = mp.named_motif(rng, rng.choice(["dumbbell", "barbell4", "dumbbell"]), 6)
+            nodes, edges = list(nodes), [list(e) for e in edges]
+            focal = rng.choice(nodes)
+            full = rng.random() < 0.7
+            ak = [v for v in nodes if v != focal and (full or rng.random() < 0.8)]
+            return {"kind": "nocg", "nodes": nodes, "edges": edges, "ak": ak, "i": focal, "k": rng.choice([0, 1, 1, 2, 3])}
         if rng.random() < 0.3 and len(edges) > 1:
             edges.pop(rng.randrange(len(edges)))      # possibly disconnected substrate
         while len(edges) > 11:
